@@ -515,7 +515,8 @@ def run_batch(pid, tier, batch_seed, budget_s=None, n_runs=None):
         trace = rec["trace"]
         path = os.path.join(REPLAY_DIR, f"{pid}-{hashlib.blake2b(sig.encode(), digest_size=6).hexdigest()}.json")
         with open(path, "w") as f:
-            json.dump(trace, f, indent=1, sort_keys=True, default=_default)
+            # key order is part of a trace (e.g. the column order of a table built from row dicts): never sort keys here
+            json.dump(trace, f, indent=1, default=_default)
         items.append((sig, path, rec))
     # confirm every known-signature hit and up to MAX_CONFIRM unknown ones in fresh processes (in parallel)
     max_confirm = 6
